@@ -13,7 +13,7 @@ func newR(seed uint64, prop string, idx int) R {
 	return R{rand.New(rand.NewPCG(mix64(seed^strHash(prop)), mix64(uint64(idx)+0x51ed)))}
 }
 
-func (r R) Pick(n int) int { return r.IntN(n) }
+func (r R) Pick(n int) int           { return r.IntN(n) }
 func (r R) Chance(permille int) bool { return r.IntN(1000) < permille }
 func (r R) Dur(lo, hi time.Duration) time.Duration {
 	if hi <= lo {
